@@ -113,6 +113,11 @@ where
 
     /// Await this task until it is ready and we've received the result.
     pub async fn ready(&self) -> T {
+        // Register for the "ready" signal _before_ looking at the result: a `Notified` future
+        // receives wake-ups from `notify_waiters` from the moment it was created. Creating it only
+        // after the check would lose the signal if the task got marked as done in between.
+        let notified = self.ready_signal.notified();
+
         // Check if an result already exists and return it directly.
         {
             let ready_result = self.ready_result.lock().await;
@@ -124,7 +129,7 @@ where
         }
 
         // If not, we wait until we got notified that an result exists.
-        self.ready_signal.notified().await;
+        notified.await;
 
         let ready_result = self.ready_result.lock().await;
         ready_result
